@@ -21,16 +21,16 @@ def tier_of(args):
 # --------------------------------------------------------------------------
 # model-checking instances of spec/MC_Sim.tla
 
-FAMILY_TIERS = {"quick": ["A", "W", "B", "V"], "thorough": ["A", "W", "B", "V", "P", "A3"]}
+FAMILY_TIERS = {"quick": ["A", "W", "B", "V", "D"], "thorough": ["A", "W", "B", "V", "D", "P", "A3"]}
 
 # property -> (invariants, action properties, families, needs no crash?)
 MC_PROPS = {
     "C01": (["I_C01_exec", "I_C01_claim", "I_C01_pool"], ["A_C01"], ["A", "W", "V", "P", "A3"]),
     "C02": (["I_C02_partition", "I_C02_counts", "I_C02_numprov", "I_End"], ["A_C02"], ["A", "W", "V", "P", "A3"]),
-    "C03": ([], ["A_C03"], ["A", "W", "P", "A3"]),
-    "C04": (["I_End"], ["A_C04"], ["A", "W", "V", "P", "A3"]),
+    "C03": ([], ["A_C03"], ["A", "W", "D", "P", "A3"]),
+    "C04": (["I_End"], ["A_C04"], ["A", "W", "D", "V", "P", "A3"]),
     "C05": (["I_C05_bound", "I_C05_nocrash"], [], ["A", "W", "B", "P", "A3"]),
-    "C06": ([], ["A_C06"], ["W", "A"]),
+    "C06": ([], ["A_C06"], ["W", "A", "D"]),
     "C07": (["I_C07_bounds", "I_C07_conserved", "I_End"], ["A_C07"], ["A", "B", "W", "A3"]),
     "C08": (["I_C08_limits"], ["A_C08", "A_C08b", "A_C08c"], ["A", "B", "P", "A3"]),
     "C09": (["I_C09_count"], ["A_C09"], ["A", "P", "A3"]),
